@@ -52,6 +52,10 @@ def summarise(fn):
             c = self_chain(st.value, selfname)
             if c:
                 alias.setdefault(st.targets[0].id, set()).add(c)
+        elif isinstance(st, ast.AnnAssign) and st.value is not None and isinstance(st.target, ast.Name):
+            c = self_chain(st.value, selfname)          # a typed local: cdef T x = self._a
+            if c:
+                alias.setdefault(st.target.id, set()).add(c)
 
     def chain_of(n):
         c = self_chain(n, selfname)
